@@ -88,6 +88,16 @@ MUTS = {
 			}""", ""),
  'N11-component-second-procinst': ('component/component.go', "				if !foundProc {", "				if !foundProc || true {"),
  'M13-tee-skips-first-list-flag': ('negotiator.go', """		first := !nState.featuresRead""", """		first := data == nil"""),
+ 'N12-component-skip-error-ignored': ('component/component.go', """			err = d.Skip()
+			return xmpp.Ready | xmpp.Authn, nil, nil, err""", """			_ = d.Skip()
+			return xmpp.Ready | xmpp.Authn, nil, nil, nil"""),
+ 'M14-cache-records-list-level-req': ('features.go', """					sf.cache[tok.Name.Space] = sfData{
+						req:     req,
+						feature: feature,
+					}""", """					sf.cache[tok.Name.Space] = sfData{
+						req:     sf.req,
+						feature: feature,
+					}"""),
  # ---- harmless rewrites
  'H1-sorted-map-iteration': ('features.go', '''				for _, v := range list.cache {''', '''				keys := make([]string, 0, len(list.cache))
 				for k := range list.cache {
